@@ -57,4 +57,40 @@ C17_SAMPLE = dict(
             ("thin must be set", 5), ("model must be one of", 6)],
 )
 
-ALL = [C16_FILTER, C17_SAMPLE]
+# ---- scoring/main.py (C06 vocabulary: Model/Scores.v) ----
+# Trusted per entry: one attribute / library call each.  A Plate object is Scores.plate (its id and the (position, row)
+# pairs it selects), the Screen is the list of its rows, the ScoresHolder is Scores.holder, the policy an optional
+# function (batch plates, candidates) -> plates.
+_SCORING_PRIMS = [
+    ("np.random.default_rng()", "fresh_rng", "rng_t"),
+    ("screen.plates", "plates screen'", "list plate"),                 # [get_plate(x) for x in np.unique(plate_ids)]
+    ("__p.plate_id", "p_id {p}", "Z", {"p": "plate"}),
+    ("__p.is_observed", "is_observed {p}", "bool", {"p": "plate"}),   # np.all(observation_mask)
+    ("sorted(__l, key=lambda p: p.plate_id)", "sorted_by_id {l}", "list plate", {"l": "list plate"}),   # stable
+]
+
+C06_SELECT = dict(
+    file="src/batchie/scoring/main.py", func="select_next_plate",
+    out="SrcScoring.v", imports="Model.Scores", name="src_select_next_plate",
+    pyparams=["scores", "screen", "policy", "batch_plate_ids", "rng"],
+    params=[("scores", "holder"), ("screen", "screen"), ("policy", "opt policy_t"), ("batch_plate_ids", "opt list Z"),
+            ("rng", "opt rng_t")],
+    returns="opt plate",
+    vars={
+        "rng": "rng_t", "batch_plate_ids": "list Z",       # narrowed by the `if x is None: x = default` idiom
+        "plate": "plate", "batch_plates": "list plate", "unobserved_plates_not_already_selected": "list plate",
+        "eligible_plates": "list plate", "eligible_plate_ids": "list Z", "best_plate_id": "Z", "best_plate": "plate",
+        "best_plate_name": "nat",
+    },
+    prims=_SCORING_PRIMS + [
+        # the policy object is its filter function; rng is handed on unread
+        ("__f.filter_eligible_plates(batch_plates=__b, unobserved_plates=__u, rng=__r)", "{f} {b} {u}", "list plate",
+         {"f": "policy_t", "b": "list plate", "u": "list plate", "r": "rng_t"}),
+        ("scores.plate_id_with_minimum_score(__e)", "!min_plate scores' (Some {e})", "Z", {"e": "list Z"}),
+        ("screen.get_plate(__i)", "get_plate screen' {i}", "plate", {"i": "Z"}),     # Plate(screen, plate_ids == i)
+        ("__p.plate_name", "!plate_name {p}", "nat", {"p": "plate"}),
+    ],
+    ignore=["logger.warning(__a)", "logger.info(__a)"],
+)
+
+ALL = [C16_FILTER, C17_SAMPLE, C06_SELECT]
